@@ -18,7 +18,14 @@ CONFIG = dict(
                "property's attribute classes are proved equal, row by row, to a table taken from the documents that define each "
                "type (classification_table_rfc). The same checker is the "
                "oracle on the real code for every generated case, and model and real code are diffed on the rendered bytes and "
-               "the full Message list. Packet half only: the RIB after rx_msg is out of scope of this version.",
+               "the full Message list. END-TO-END half (check_e2e_ok): the same classification read off the Adj-RIB-In after the "
+               "real receive path: a live session of harness/daemon/rig.rs (eBGP / iBGP / confederation member, 2- or 4-octet "
+               "AS, ADD-PATH receive), OLD routes installed for the withdrawn (and optionally the announced) prefixes, the "
+               "rendered UPDATE written on the socket, run_select -> try_parse -> validate_message -> is_as_loop -> rx_msg -> "
+               "rx_update -> TableManager insert/remove; observation = reset (NOTIFICATION code) or the peer's Adj-RIB-In; "
+               "model = packet-level model + the inserts / removals of rx_update (with the LOCAL_PREF injected for internal "
+               "peers); a route that is not an OLD one = announced with these attributes, a prefix not in the table = "
+               "withdrawn; proved for all cases and diffed / judged on the real daemon.",
     level_note="Trusted: Lean kernel; axioms propext/Classical.choice/Quot.sound; hand-written model (checked only by the "
                "correspondence stream); the two renderers (Lean `render`, Rust harness) that turn (valid UPDATE, corruptions) "
                "into bytes - they are diffed byte for byte on every case; the byte-level oracle's own RFC tables (attribute "
@@ -34,6 +41,8 @@ CONFIG = dict(
         "Rbgp.Wire.UProps.check_run_ok_full",
         "Rbgp.Wire.UProps.nonvacuous_full",
         "Rbgp.Wire.UProps.nonvacuous_weak_prefix",
+        "Rbgp.Wire.UProps.check_e2e_ok",
+        "Rbgp.Wire.UProps.nonvacuous_e2e",
         "Rbgp.Wire.UProps.taw_no_reach",
         "Rbgp.Wire.UProps.must_taw_is_taw",
         "Rbgp.Wire.UProps.withdrawals_preserved",
@@ -67,20 +76,29 @@ CONFIG = dict(
          "class, bad legacy NLRI prefix length; codec = IPv4/IPv6 unicast with AddPath, extended message, 2-octet AS; both sides "
          "render the bytes themselves. Also: TUNNEL_ENCAP (23) and BGP-LS (29, sometimes > 255 bytes with extended length), a "
          "260-byte COMMUNITIES value, MP families IPv4/IPv6 multicast besides unicast; the harness negotiates ADD-PATH so that "
-         "the send direction differs from the receive direction in about half of the codecs. non-trivial = the outcome is a reset or contains a reach/unreach message; distinct = "
+         "the send direction differs from the receive direction in about half of the codecs. END-TO-END stream ((e2e ..) lines, "
+         "daemon harness): ~260 systematic cases (one UPDATE with 12 attribute types; each attribute x {3 flag conflicts, "
+         "partial bit, omitted, value one byte too long, duplicate}; NEXT_HOP omitted + a malformed optional non-transitive "
+         "attribute; truncation; unknown attributes; with and without a second family in MP_REACH; eBGP / iBGP / confederation "
+         "peers, announced prefixes installed beforehand or not) + 160 random cases of the packet-level generator wrapped "
+         "with a peer kind. non-trivial = the outcome is a reset or contains a reach/unreach message; distinct = "
          "distinct case line",
     expect_tokens=["(reset 3 1 ", "(reset 3 9 ", "(reach 65537 ", "(reach 131073 ", "(unreach 65537 ", "(unreach 131073 ",
                    "(ok)", " opq ", " val ", "(eor "],
-    trusted_base=["model lean/Rbgp/Wire/{Model,Update}.lean of packet/src/bgp.rs parse_message UPDATE arm + validate_update",
+    trusted_base=["end-to-end stream: harness/daemon/c05.rs + rig.rs (remote speaker: OPEN with the codec's capabilities, the UPDATE "
+                  "installing the OLD routes, clean-up withdrawals between cases that share a session; listing through "
+                  "TableManager::collect_paths(AdjIn)); model lean/Rbgp/Wire/E2E.lean of rx_update's table updates",
+                  "model lean/Rbgp/Wire/{Model,Update}.lean of packet/src/bgp.rs parse_message UPDATE arm + validate_update",
                   "the two renderers of (valid UPDATE, corruptions): lean/Rbgp/Wire/Update.lean `render` and harness/pt/src/bin/"
                   "c05.rs `render` (diffed byte for byte on every case)",
                   "the byte-level reference checker lean/Rbgp/Wire/UpdateSpec.lean `check` (oracle on the real code; its agreement "
                   "with the model is theorem check_run_ok_full)"],
-    modelled_not_verified=["PeerSession::rx_msg / Table::insert|remove (end-to-end half: which routes the RIB holds afterwards); "
-                           "NOT executed by this check: ./check runs one harness per property and this one is the packet-level "
-                           "binary; a daemon-side stream over harness/daemon/rig.rs (establish a session, install the pools, feed "
-                           "the rendered UPDATE, list the table) needs a second harness per property in ./check or its own "
-                           "property id",
+    modelled_not_verified=["end-to-end stream: the AS-loop filter and the ORIGINATOR_ID / CLUSTER_LIST loop check of rx_update run "
+                           "but never fire (local AS / router id chosen outside the generated attribute pools); the best-path "
+                           "/ Loc-RIB side of TableManager is not observed (Adj-RIB-In only); next hops are not in the listing; "
+                           "rig.rs transcribes session_loop's preamble and tail; cases whose legacy withdrawal is re-announced in "
+                           "MP_REACH of the same UPDATE, duplicates of LOCAL_PREF on internal sessions and (in cases with damaged "
+                           "framing) the fate of the withdrawals are not judged by the end-to-end checker",
                            "judged by the model/implementation diff only, not by the oracle: a duplicated AS_PATH / AGGREGATOR / "
                            "AS4_* (stored re-encoded) or NEXT_HOP (not in the attribute vector); an `(ok)` without any message "
                            "when nothing demands treat-as-withdraw (a silently dropped valid UPDATE)",
@@ -88,7 +106,10 @@ CONFIG = dict(
                            "attribute bodies of PREFIX_SID, TUNNEL_ENCAP, BGP-LS (not parsed at this layer)"],
     assumptions=["received bytes are octets (< 256)", "families in a codec are distinct"],
     oracle_stats=True,
-    expect_judged=["judged", "judged-clean", "judged-must-taw", "judged-discard-class-withdrawn", "judged-dup",
+    expect_judged=["e2e-judged", "e2e-kind:ebgp", "e2e-kind:ibgp", "e2e-kind:confed", "e2e-pre:true", "e2e-pre:false",
+                   "e2e-class:must-taw", "e2e-class:weak", "e2e-class:other", "e2e-outcome:fresh-route",
+                   "e2e-outcome:no-fresh-route", "e2e-outcome:reset",
+                   "judged", "judged-clean", "judged-must-taw", "judged-discard-class-withdrawn", "judged-dup",
                    "judged-weak-only", "judged-weak-prefix-taw", "outcome-reset", "outcome-announced", "outcome-withdrawn",
                    "has-taw-or-reset"],
     claimed=True,
